@@ -57,7 +57,7 @@ def make_line(I, cfg, tag, spec):
     # group form: the text before `k=` may contain key letters (the key must be located by the
     # regex match, not by searching for its text)
     lead_alpha = [120, 32, 97] if cfg.mode in ('group', 'group-empty') else [120, 32]
-    trail_alpha = [59, 32] if cfg.mode in ('group', 'group-empty') else [120, 32]
+    trail_alpha = [59, 32] if cfg.mode in ('group', 'group-empty', 'bare-empty') else [120, 32]
     bs = [I.fresh_byte('%s_w%d' % (tag, i), lead_alpha) for i in range(lead)]
     if cfg.mode == 'group-optional':
         # pattern z(?P<value>[ab]+)? : the group takes part only when letters follow the z; otherwise the
@@ -66,6 +66,12 @@ def make_line(I, cfg, tag, spec):
         key = [I.fresh_byte('%s_k%d' % (tag, i), cfg.key_alphabet) for i in range(klen)]
         bs += [122] + key + [I.fresh_byte('%s_t%d' % (tag, i), trail_alpha) for i in range(trail)]
         return tuple(bs), (tuple(key) if klen else (122,)), (off + 1 if klen else off)
+    if cfg.mode == 'bare-empty':
+        # pattern (?P<value>[ab]*) : every line matches at its very first byte; the key is the run of key
+        # letters the line starts with - possibly none (an empty key at offset 0)
+        key = [I.fresh_byte('%s_k%d' % (tag, i), cfg.key_alphabet) for i in range(klen)]
+        bs = key + [I.fresh_byte('%s_t%d' % (tag, i), trail_alpha) for i in range(trail)]
+        return tuple(bs), tuple(key), 0
     if cfg.mode == 'group-empty' and klen == 0:
         # pattern k=(?P<value>[ab]*) : the group takes part and matches nothing - the key is the empty string
         bs += [107, 61]
@@ -390,7 +396,7 @@ def gen_tasks(rnd, configs, specs_for, nlines, per_cfg, min_keys=2):
         combos = []
         for n in range(1, nlines + 1):
             for ls in itertools.product(specs, repeat=n):
-                if sum(1 for x in ls if x[1] > 0 or cfg.mode == 'group-empty') < min_keys:
+                if sum(1 for x in ls if x[1] > 0 or cfg.mode in ('group-empty', 'bare-empty')) < min_keys:
                     continue
                 combos.append(ls)
         short = [c for c in combos if len(c) <= 2]
